@@ -390,6 +390,10 @@ def run_driver(ctx, focus):
                             kw["seed"] = kw["seed"] + e
                         elif "random_state" in kw:
                             kw["random_state"] = kw["random_state"] + e
+                if t.flag(0.35, "tolerances_for_this_execution"):
+                    # feasibility tolerances are driver settings: they may change from one execution to the next
+                    kw["ineq_tolerance"] = t.pick([1e-4, 0.1, 0.5, 1e-8], "ineq_tolerance")
+                    kw["eq_tolerance"] = t.pick([1e-2, 0.3, 1e-6], "eq_tolerance")
                 if e == 0 or reset:
                     since_reset = 0
                 lib = fac.create(lib_name)
